@@ -165,6 +165,8 @@ class StmtMixin:
         return [(st, ("normal",))]
 
     def ex_FunctionDef(self, s, st, cx):
+        if getattr(cx, "module_level", False):
+            return [(st, ("normal",))]
         st = st.copy()
         f = VFunc("closure", s, env=None, self_val=cx, qn=(cx.fn or "") + "." + s.name)
         st.env[s.name] = f
@@ -172,6 +174,8 @@ class StmtMixin:
         return [(st, ("normal",))]
 
     def ex_ClassDef(self, s, st, cx):
+        if getattr(cx, "module_level", False):
+            return [(st, ("normal",))]  # definitions are taken from the module index
         raise Unsupported("nested class %s" % s.name)
 
     def ex_Assert(self, s, st, cx):
@@ -212,6 +216,9 @@ class StmtMixin:
 
     # ------------------------------------------------------------ assignment
     def ex_Assign(self, s, st, cx):
+        if getattr(cx, "module_level", False) and len(s.targets) == 1 and isinstance(s.targets[0], ast.Name) \
+                and (cx.mod.qn + "." + s.targets[0].id) in self.reg.records:
+            return [(st, ("normal",))]  # class-valued module constant (namedtuple): modelled by the declared record
         outs = []
         for s2, v in self.ev(s.value, st, cx):
             states = [s2]
@@ -248,7 +255,9 @@ class StmtMixin:
         if isinstance(tg, ast.Name):
             st = st.copy()
             gl = st.env.get("__globals__")
-            if gl is not None and tg.id in gl.what:
+            if getattr(cx, "module_level", False) and (cx.mod.qn + "." + tg.id) in self.reg.records:
+                return [st]  # class-valued module constant (e.g. a namedtuple): modelled by the declared record
+            if (gl is not None and tg.id in gl.what) or (getattr(cx, "module_level", False) and (cx.mod.qn + "." + tg.id) in self.reg.globals):
                 qn = cx.mod.qn + "." + tg.id
                 if qn not in self.reg.globals:
                     raise Unsupported("assignment to undeclared module global %s" % qn)
@@ -454,6 +463,9 @@ class StmtMixin:
 
     # ------------------------------------------------------------ loops
     def loop_contract(self, node, cx):
+        key = getattr(node, "_pyvc_key", None)
+        if key is not None:
+            return (cx.contract.loops.get(key) if cx.contract else None), key
         if cx.fn_node is None:
             return None, None
         ls = loops_of(cx.fn_node)
@@ -569,6 +581,8 @@ class StmtMixin:
                 self.assume_wf(st, v)
                 st.glob[qn] = v
                 continue
+            if m == "alloc":
+                continue
             name, cls = (m.split("@") + [None])[:2]
             so = self.field_sort(name, cls)
             k = self.heap_key(name, cls)
@@ -580,6 +594,8 @@ class StmtMixin:
         for k, a in st.heap.items():
             if k not in head.heap or head.heap[k] is not a:
                 base = k.split("@")[0]
+                if "alloc" in declared and False:
+                    pass
                 if not any(d.split("@")[0] == base for d in declared):
                     if k in head.heap or True:
                         if not (k in head.heap and z3.eq(head.heap[k], a)):
@@ -603,9 +619,9 @@ class StmtMixin:
                 keep = set(needs[lab])
                 sub = st.copy()
                 sub.pc = [p for p in st.pc if self.inv_tags.get(p.get_id()) is None or self.inv_tags[p.get_id()] in keep]
-                self.oblige(sub, truth(g), "loop%d.%s" % (k, phase), lab)
+                self.oblige(sub, truth(g), "loop%s.%s" % (k, phase), lab)
             else:
-                self.oblige(st, truth(g), "loop%d.%s" % (k, phase), lab)
+                self.oblige(st, truth(g), "loop%s.%s" % (k, phase), lab)
 
     def inv_assume(self, lc, st, cx, extra_env):
         for lab, ex in _labelled(lc.get("invariant", [])):
@@ -644,7 +660,7 @@ class StmtMixin:
             for b in self.assign_target(s.target, elem(i), body, cx):
                 b = self.exec_ghost(lc["ghost_begin"], [b], cx)[0] if lc.get("ghost_begin") else b
                 for s2, oc in self.exec_block(s.body, b, cx):
-                    self.check_frame(head, s2, hf, "loop %d of %s" % (k, cx.fn))
+                    self.check_frame(head, s2, hf, "loop %s of %s" % (k, cx.fn))
                     if oc[0] in ("normal", "continue"):
                         if lc.get("ghost_end"):
                             s2 = self.exec_ghost(lc["ghost_end"], [s2], cx)[0]
@@ -691,7 +707,7 @@ class StmtMixin:
                 if lc.get("ghost_begin"):
                     t = self.exec_ghost(lc["ghost_begin"], [t], cx)[0]
                 for s2, oc in self.exec_block(s.body, t, cx):
-                    self.check_frame(head, s2, hf, "loop %d of %s" % (k, cx.fn))
+                    self.check_frame(head, s2, hf, "loop %s of %s" % (k, cx.fn))
                     if oc[0] in ("normal", "continue"):
                         if lc.get("ghost_end"):
                             s2 = self.exec_ghost(lc["ghost_end"], [s2], cx)[0]
